@@ -302,7 +302,7 @@ def classify_c02(m):
         return "C02-KF2"
     ells = ("...", "..", "\u2026")
     if out == "panic" and ("index out of bounds" in det or "Segment Position should be within bounds" in det) and "@ subrule.rs" in det and not insertion \
-            and any(e in parts["inp"] for e in ells) and (parts["out"] not in ("*", "\u2205", "&") or parts["inp"].startswith(ells)):
+            and any(e in parts["inp"] for e in ells):
         return "C02-KF3"
     return None
 
